@@ -140,7 +140,7 @@ func (s *Summary) Diverge(stream, op, impl, model string) {
 func (s *Summary) Violate(v Violation) {
 	s.NViol++
 	s.ViolKinds[v.Kind]++
-	if s.ViolKinds[v.Kind] <= 5 {
+	if s.ViolKinds[v.Kind] <= 300 {
 		s.Violations = append(s.Violations, v)
 	}
 }
